@@ -589,7 +589,7 @@ def random_idx_ops(rng, nrec, mode):
 
 def run(ctx):
     from props import cli_proc
-    cli_proc.stream(ctx, ['C15', 'C15@recover', 'C15@repair_ecc'])
+    cli_proc.stream(ctx, ['C15', 'C15@recover', 'C15@repair_ecc', 'C15-badrecord'])
     rng = ctx.rng
     thorough = ctx.tier == 'thorough'
     try:
